@@ -255,7 +255,7 @@ struct LcSim : Harness {
     Outcome out; cur_out = &out; C = &rc; g_self = this; th = Fnv(); clock_ticks = 0; nops_done = 0;
     const Json &kn = plan.at("knobs"); mode = kn.gets("mode", "C17");
     prog_json = &plan.at("prog"); sigs = prog::signatures(*prog_json);
-    if (mode == "C13") for (const char *nm : {"f", "g", "h"}) if (!sigs.count(nm)) { FuncInfo fi; fi.name = nm; fi.na = 1; sigs[nm] = fi; }  // names that only externals define
+    if (mode == "C13") for (const char *nm : {"f", "g", "h"}) if (!sigs.count(nm)) { FuncInfo fi; fi.name = nm; fi.na = 1; fi.ps = "q"; sigs[nm] = fi; }  // names that only externals define
     mods.assign(prog_json->at("mods").size(), Mod()); fns.clear(); G.clear(); bound.clear(); bound_inlined.clear(); bound_late.clear(); use_impl_bindings = false; pending.clear(); foreign.clear(); ext_log.clear(); reenter_addr.clear(); reenter_name.clear(); resolver_k.clear(); resolver_asked.clear();
     gen_on = c2m_on = ext_loaded = false; opt_level = 2; redef_allowed = false; expect_error = alt_error = -1; ever_exported_fn.clear(); ext_depth = 0; mdepth = 0; store.clear();
     for (size_t mi = 0; mi < prog_json->at("mods").size(); mi++) for (auto &f : prog_json->at("mods")[mi].at("funcs").a) { Fn fn; fn.def = &f; fn.mod = (int) mi; prog::walk(f.at("body"), [&](const Json &st) { if (st[0].s == "lt" || st[0].s == "ld") fn.has_lt = true; }); fns[f.gets("name")].push_back(fn); }
